@@ -24,28 +24,32 @@ META = {
         ref="DESIGN.md §4 C02"),
     "C03": dict(
         text="static: out-of-range level corrections and levels lead to an error exit (not truncation); hashing order "
-             "left||right||level; calendar shape rejections; results of hasher calls are consumed",
+             "left||right||level; calendar shape rejections; results of hasher calls are consumed"
+             "; what a link contributes per sibling kind and metadata state; zero-link chains; chain-list fold incl. remembered outputs; who-may-write on the inputs of the remembered root",
         note="decides rejection / ordering clauses only; numerical equality with the KSI formula for all chains is not decided",
         tech="static analysis: error-on-condition, dropped-status and call-sequence rules over the CFG of hashchain.c",
         ref="DESIGN.md §4 C03"),
     "C04": dict(
         text="static: every OK path of the five anchored policies satisfies the internal certificate and the policy's anchor "
              "certificate; anchor rules FAIL only with the documented PUB/CAL/KEY code, missing anchors are inconclusive only; guard tables "
-             "of the comparing rules; extender-based rules get the extender's chain or an error, never the signature's own",
+             "of the comparing rules; extender-based rules get the extender's chain or an error, never the signature's own"
+             "; the aggregation root helper reports a failed computation as an error",
         note="decides policy shape and verdict tables; cryptography inside OpenSSL and the extender's honesty are trusted",
         tech="static analysis: rule-table path enumeration + verdict tables + must-pass guards",
         ref="DESIGN.md §4 C04"),
     "C05": dict(
         text="static decision tables: the loop bodies of Rule_verify and of the fallback loop are evaluated abstractly for every "
              "combination of element type, rule status, verdict and fallback presence, and compared with the documented "
-             "AND/OR/fallback semantics; complete for the control logic of the engine",
+             "AND/OR/fallback semantics; complete for the control logic of the engine"
+             "; the two recording helpers and the verifying wrapper's status as tables",
         note="decides the engine's control logic from the CFG of policy.c (finite abstract evaluation, nothing executed); trusts "
              "clang's CFG construction and the compiler; opaque helpers are summarised by their mod-sets",
         tech="static analysis: finite abstract interpretation of the CFG (decision-table extraction) + dominance/post-dominance",
         ref="DESIGN.md §4 C05"),
     "C06": dict(
         text="static: response payload extractors are reachable only behind a successful HMAC verification; pdu_verifyHmac "
-             "returns OK only on digest equality and honours the configured algorithm; MAC range, version dispatch, request MAC",
+             "returns OK only on digest equality and honours the configured algorithm; MAC range, version dispatch, request MAC"
+             "; the request-header callback precedes every MAC-computing call",
         note="decides gating / range / dispatch clauses; HMAC arithmetic and digest values are not decided",
         tech="static analysis: must-pass guards + who-may-call over the resolved call graph + template flag tables",
         ref="DESIGN.md §4 C06"),
@@ -74,7 +78,8 @@ META = {
     "C10": dict(
         text="static: the TLV template tables equal the reviewed schema (tags, kinds, multiplicity, constraint flags); every "
              "constraint flag is enforced by the template interpreter (accept / reject scenario pairs, repeated and interleaved sections "
-             "included); value-parser tables (integer, imprint, UTF-8, legacy id); presence combinations of a signature's components",
+             "included); value-parser tables (integer, imprint, UTF-8, legacy id); presence combinations of a signature's components"
+             "; must-pass chain of the parser entries down to the element loop",
         note="decides schema tables and enforcement branches; the accepting direction is not decided",
         tech="static analysis: constant-table comparison + error-on-condition over the template interpreter",
         ref="DESIGN.md §4 C10"),
@@ -88,7 +93,8 @@ META = {
         ref="DESIGN.md §4 C11"),
     "C12": dict(
         text="static: reader dereferences behind length checks, sentinel-terminated lookup tables whose every index is bounded on both "
-             "sides, ownership on parser error paths, bounded formatting into fixed buffers, rendering into caller buffers",
+             "sides, ownership on parser error paths, bounded formatting into fixed buffers, rendering into caller buffers"
+             "; rendering buffers written before handed back; ASN.1 time characters read only after a validator; calendar conversion results looked at; tracker depth from the template tables",
         note="a pass means these rule families hold everywhere, not that the parsers are memory-safe for all byte strings",
         tech="static analysis: bounded-access + table invariants + ownership typestate over goto-cleanup exits",
         ref="DESIGN.md §4 C12"),
@@ -97,7 +103,8 @@ META = {
              "and status; accounting pairs; finalisation table; cache-full predicate; accounting tables of addRequest and of a received "
              "configuration over what the configuration slot holds (accepted = pending + 1, refused = nothing changed, no unreturned "
              "request leaves the slot); send-timeout table; cache growth keeps every outstanding request in its slot; endpoint configuration is "
-             "all-or-nothing; the response context is read as a response only in state RESPONSE_RECEIVED",
+             "all-or-nothing; the response context is read as a response only in state RESPONSE_RECEIVED"
+             "; accepting a request restarts its send clock; error PDUs end requests with an error code, never KSI_OK; a status concerns the request it names",
         note="decides delivery guards, accounting pairs and the listed tables; exactly-once over all schedules is not decided",
         tech="static analysis: must-pass guards + paired-effect (control equivalence) + decision tables",
         ref="DESIGN.md §4 C13"),
@@ -148,7 +155,8 @@ META = {
              "reference taken is never discarded; all-or-nothing decision tables for the multi-step updates found by the commit-then-fail "
              "scan (parallel lists of the context, builder close with a root level, level-correction update, prepending a chain - the last one "
              "fails 8 rows on today's tree: known finding F74); whole-struct copies re-assign every released pointer field; a borrowed list element "
-             "is not put into a second owning list; a caller's object is taken over only as the last fallible step",
+             "is not put into a second owning list; a caller's object is taken over only as the last fallible step"
+             "; hand-over through setters (public-interface convention); data-hash release table",
         note="decides ownership / NULL-check / status rules on every exit of every function and 'unchanged after a refused call' for the "
              "tabled functions; that repeating ANY operation gives the fault-free result is decided only where a table exists; third-party libraries are trusted",
         tech="static analysis: ownership typestate over the goto-cleanup CFG + status hygiene",
@@ -156,7 +164,8 @@ META = {
     "C20": dict(
         text="static: scheme map equals the documented table; dispatch tables of the blocking and asynchronous services; "
              "embedded credentials flow only into login id / key parameters; the bundled URL parser and uriSplit evaluated on URIs as byte "
-             "strings; a string parameter holds exactly the value last given to it",
+             "strings; a string parameter holds exactly the value last given to it"
+             "; authority scanner state x octet table; TCP endpoint setters on all host forms",
         note="decides table, dispatch and flow clauses; http_parser_parse_url itself is trusted",
         tech="static analysis: constant-table comparison + decision tables + must-not-flow",
         ref="DESIGN.md §4 C20"),
